@@ -159,6 +159,16 @@ func (fc *funcCtx) applyContract(st *State, ins ssa.Instruction, callee *ssa.Fun
 			rn = con.Results[i]
 		}
 		v := fc.e.fresh(st, sig.At(i).Type(), rn)
+		if iv, isIface := v.(IfaceV); isIface {
+			for _, nt := range con.Notes {
+				if nt == "result-dynamic-type string" {
+					iv.DT = types.Typ[types.String]
+					iv.Dyn = Sc{st.freshConst(rn+"_str", SStr), SStr}
+					iv.Nil = "false"
+					v = iv
+				}
+			}
+		}
 		// fresh slice results are new storage unless the contract says otherwise
 		results = append(results, v)
 		env.vars[rn] = v
